@@ -54,9 +54,25 @@ def parseRoot (s : String) : Option (Option Addr) :=
 def parseList {α : Type} (f : String → Option α) (s : String) : Option (List α) :=
   if s = "-" then some [] else (s.splitOn ",").mapM f
 
+/-- data field of a put op: hex, or `@<seed>.<n>` = `genBytes seed n` (mirrors lsharness.ParseData) -/
+def parseData (d : String) : Option Bytes :=
+  if d.startsWith "@" then
+    match ((d.drop 1).toString).splitOn "." with
+    | [a, b] => match a.toNat?, b.toNat? with
+      | some seed, some n => if n ≤ 16777216 then some (Driver.genBytes seed n) else none
+      | _, _ => none
+    | _ => none
+  else Driver.hexToBytes d
+
+/-- data in dumps and results: hex up to 256 bytes, beyond that `#<len>.<h>`, h = fold (h*31 + b) in UInt64
+    (mirrors lsharness.ShowData) -/
+def showData (d : Bytes) : String :=
+  if d.length ≤ 256 then Driver.bytesToHex d
+  else s!"#{d.length}.{(d.foldl (fun (h : UInt64) b => h * 31 + b.toUInt64) 0).toNat}"
+
 def parseChunk (s : String) : Option (Addr × Bytes) :=
   match s.splitOn ":" with
-  | [a, d] => match parseAddr a, Driver.hexToBytes d with
+  | [a, d] => match parseAddr a, parseData d with
     | some a, some d => some (a, d)
     | _, _ => none
   | _ => none
@@ -91,8 +107,8 @@ def showErr : Err → String
 
 def showOut : Out → String
   | .exist l => s!"exist {bits l}"
-  | .chunk d => s!"chunk {Driver.bytesToHex d}"
-  | .chunks l => s!"chunks [{commaSep (l.map Driver.bytesToHex)}]"
+  | .chunk d => s!"chunk {showData d}"
+  | .chunks l => s!"chunks [{commaSep (l.map showData)}]"
   | .bool b => Driver.boolStr b
   | .bools l => s!"bools {bits l}"
   | .ok => "ok"
@@ -104,7 +120,7 @@ def showOut : Out → String
   | .nogc => "nogc"
 
 def showDb (db : Db) : String :=
-  let d := db.data.map (fun e => s!"{showAddr e.1}:{e.2.binID}:{e.2.storeTs}:{Driver.bytesToHex e.2.data}")
+  let d := db.data.map (fun e => s!"{showAddr e.1}:{e.2.binID}:{e.2.storeTs}:{showData e.2.data}")
   let a := db.access.map (fun e => s!"{showAddr e.1}:{e.2}")
   let g := db.gc.map (fun e => s!"{e.1.ts}:{e.1.binID}:{showAddr e.1.addr}={e.2}")
   let p := db.pin.map (fun e => s!"{showAddr e.1}={e.2}")
